@@ -37,10 +37,10 @@ def _v(rec, clause, sig, *a, **k):
 def units(tier, seed):
     if tier == "quick":
         shapes = [(2, 3), (2, 4), (3, 4), (3, 5), (4, 5), (4, 6), (2, 5), (3, 6)]
-        gen = AL.systems(shapes, seed=seed, order=2, bounds=["ub-finite", "lb-pos", "scalar"])
+        gen = AL.systems(shapes, seed=seed, order=2, bounds=["ub-finite", "lb-pos", "scalar", "lb-mixed"])
     else:
         shapes = [(m, m + s) for m in (2, 3, 4) for s in (1, 2, 3)]
-        gen = AL.systems(shapes, seed=seed, cross=True, bounds=["ub-finite", "lb-pos", "scalar"])
+        gen = AL.systems(shapes, seed=seed, cross=True, bounds=["ub-finite", "lb-pos", "scalar", "lb-mixed"])
     out = []
     for names, A, (lb, ub), K, bl in gen:
         out.append(dict(names=names, spec=B.spec_of(A, lb, ub, K, bl), tier=tier))
